@@ -423,6 +423,16 @@ def _big_document(rng):
     for nm in names[-2:]:
         if not nm.startswith("M"):         # an oddly named module as the LAST pin of a net without weight
             nets.append(rng.sample([x for x in names if x != nm], rng.randint(1, 2)) + [nm])
+    # the same design in micrometres written in metres, or in large units (after the open seed r8-C05-1: centres rounded to nine decimals)
+    u = rng.choice([1, 1, 1, 1e-6, 1e3])
+    if u != 1:
+        for m in mods.values():
+            if "rectangles" in m:
+                m["rectangles"] = [[v * u for v in r[:4]] + r[4:] for r in m["rectangles"]]
+            if "center" in m:
+                m["center"] = [v * u for v in m["center"]]
+            if "area" in m:
+                m["area"] = {k_: v * u * u for k_, v in m["area"].items()} if isinstance(m["area"], dict) else m["area"] * u * u
     return {"Modules": mods, "Nets": nets}
 
 
@@ -553,13 +563,20 @@ def larger_documents(chunk, replay=None):
             failures.append(dict(clause=cl, doc=doc))
         # one defect injected somewhere: rejected
         defect, bad = _inject(rng, doc)
+        if it == 0 and chunk == 0 and not replay:
+            # the recorded design of the known finding C05-overlap-in-small-units (reported on every run): a hard module, micrometres written in
+            # metres, whose second rectangle overlaps a quarter of the first
+            defect, bad = "hard_overlapping_rectangles", {"Modules": {"H": {"hard": True, "rectangles": [[3e-06, 4.5e-06, 6e-06, 2e-06], [4.5e-06, 5e-06, 1e-06, 2.5e-06]]},
+                                                                      "S": {"area": 4e-12, "center": [1e-05, 1e-05]}}, "Nets": [["H", "S"]]}
         if defect:
             evals += 1
             injected[defect] = injected.get(defect, 0) + 1
             Rectangle.undefine_epsilon()
+            coords = [abs(v) for m in bad["Modules"].values() if isinstance(m, dict) for r in (m.get("rectangles") or []) if isinstance(r, list) for v in r[:4] if isinstance(v, (int, float))]
+            units = "micro" if coords and max(coords) < 1e-3 else "ordinary"
             try:
                 Netlist(bad)
-                failures.append(dict(clause="big.ill_formed_design_rejected", defect=defect, doc=bad))
+                failures.append(dict(clause="big.ill_formed_design_rejected", defect=defect, doc=bad, observed=f"accepted: {defect} in {units} units"))
             except (AssertionError, KeyError, TypeError, ValueError):
                 pass
         if not samples:
